@@ -24,8 +24,8 @@ def split_drift(c, res):
 def run(c):
     th = c.thorough()
     c.rule = ("model: every N x N pattern with full diagonal x {raw, dominant, SPD} values x {CM, reversed CM} through the "
-              "transcribed cuthill_mckee + skyline_lu on exact rationals (N = 4; 3 in the quick tier plus the code side on "
-              "every 5th 4x4 pattern), every 4x4 (5x5 with diagonal in thorough) pattern through cuthill_mckee, every 2x2 "
+              "transcribed cuthill_mckee + skyline_lu on exact rationals (N = 3 quick, N = 4 thorough; the code side runs "
+              "every 5th 4x4 pattern in quick, all in thorough), every 4x4 (5x5 with diagonal in thorough) pattern through cuthill_mckee, every 2x2 "
               "matrix over -2..2 and 3x3 over -1..1 (-1..2 thorough) through detail::inverse, static_matrix ring identities "
               "on 2x2 integer blocks, the stride maps of qr.hpp for all shapes <= 12x12; code: the same spaces plus seeded "
               "random real/complex/block matrices through the public classes; a case is non-trivial when the matrix has "
@@ -48,12 +48,14 @@ def run(c):
 
     def models():
         ms = []
-        ms.append(c.tlc_model("DirectModel", constants={"N": 3}, workers=4))
-        ms.append(c.tlc_model("DirectModel", constants={"N": 4}, workers=8))
-        ms.append(c.tlc_model("PermModel", constants={"NP": 5, "DiagOnly": "TRUE"} if th else {"NP": 4, "DiagOnly": "FALSE"}, workers=8))
-        ms.append(c.tlc_model("InverseModel", constants={"NI": 2, "NegLo": 2, "Hi": 2}, workers=4))
-        ms.append(c.tlc_model("InverseModel", constants={"NI": 3, "NegLo": 1, "Hi": 2 if th else 1}, workers=8))
-        ms.append(c.tlc_model("StaticMatrixModel", constants={"Wide": "TRUE" if th else "FALSE"}, workers=8))
+        # coverage=False: TLC's coverage bookkeeping slows the deeply recursive rational evaluation 20x
+        ms.append(c.tlc_model("DirectModel", constants={"N": 3}, workers=4, coverage=False))
+        if th:
+            ms.append(c.tlc_model("DirectModel", constants={"N": 4}, workers=12, coverage=False, timeout=1500))
+        ms.append(c.tlc_model("PermModel", constants={"NP": 5, "DiagOnly": "TRUE"} if th else {"NP": 4, "DiagOnly": "FALSE"}, workers=8, coverage=False, timeout=1500))
+        ms.append(c.tlc_model("InverseModel", constants={"NI": 2, "NegLo": 2, "Hi": 2}, workers=4, coverage=False))
+        ms.append(c.tlc_model("InverseModel", constants={"NI": 3, "NegLo": 1, "Hi": 2 if th else 1}, workers=8, coverage=False, timeout=1500))
+        ms.append(c.tlc_model("StaticMatrixModel", constants={"Wide": "TRUE" if th else "FALSE"}, workers=8, coverage=False, timeout=1500))
         ms.append(c.tlc_model("QrModel", workers=2))
         for m in ms:
             if m["violated"]:
@@ -66,7 +68,7 @@ def run(c):
         if th:
             runs += [("random", 16, 400)]
         for mode, nt, chunk in runs:
-            t = c.record(rd, [mode], env={"OMP_NUM_THREADS": nt}, out=c.path("d-%s-%d.ndjson" % (mode, nt)))
+            t = c.record(rd, [mode], env={"OMP_NUM_THREADS": nt, "OMP_WAIT_POLICY": "passive", "GOMP_SPINCOUNT": 0}, out=c.path("d-%s-%d.ndjson" % (mode, nt)))
             res = c.tlc_trace("C16Trace", t, label="%s@%dthreads" % (mode, nt), chunk=chunk)
             for ln in res["lines"][:60000:1499]:
                 c.sample(ln, limit=8)
